@@ -22,6 +22,7 @@ import (
 	"errors"
 	"fmt"
 	"regexp"
+	"strconv"
 	"strings"
 
 	dtu "github.com/siglens/siglens/pkg/common/dtypeutils"
@@ -33,6 +34,7 @@ import (
 	"github.com/siglens/siglens/pkg/segment/structs"
 	. "github.com/siglens/siglens/pkg/segment/structs"
 	. "github.com/siglens/siglens/pkg/segment/utils"
+	"github.com/siglens/siglens/pkg/utils"
 	log "github.com/sirupsen/logrus"
 	"github.com/valyala/fasthttp"
 )
@@ -142,7 +144,18 @@ func ProcessSingleFilter(colName string, colValue interface{}, originalColValue 
 					if originalColValue != nil {
 						caseConversion.originalColValue = strings.ReplaceAll(strings.TrimSpace(originalColValue.(string)), "\"", "")
 					}
-					criteria := CreateTermFilterCriteria(colName, cleanedColVal, opr, qid, caseConversion)
+					var criteria *FilterCriteria
+					_, fastErr := utils.FastParseFloat([]byte(cleanedColVal))
+					_, parseErr := strconv.ParseFloat(cleanedColVal, 64)
+					if fastErr == nil && parseErr == nil && !isTerm {
+						// a quoted value that reads as a number is compared by value, like the same value
+						// without quotes and like the where command: whether a stored value is a number
+						// or numeric text depends on what else its block holds
+						caseConversion.IsString = false
+						criteria = CreateTermFilterCriteria(colName, json.Number(cleanedColVal), opr, qid, caseConversion)
+					} else {
+						criteria = CreateTermFilterCriteria(colName, cleanedColVal, opr, qid, caseConversion)
+					}
 					andFilterCondition = append(andFilterCondition, criteria)
 				}
 			}
